@@ -18,7 +18,8 @@
                           in L (strict upper triangle ignored) and its product with its transpose;
      dget M i j        := entry (i, j) of a dense matrix given as the list of its rows. *)
 From Coq Require Import ZArith List Bool Arith Lia PrimFloat Reals Sorted.
-From MJV Require Import Lib.Num Lib.NumR Model.Sparse Model.SparseSuper Model.Chol Proof.SparseSuperProof
+From MJV Require Import Lib.Num Lib.NumR Model.Sparse Model.SparseSuper Model.SparseExtra Model.Chol Proof.SparseSuperProof
+  Proof.SparseExtraProof
   Proof.LinAlgBase Proof.SparseProof Proof.SparseMergeProof Proof.SparseSymProof
   Proof.SparseCompressProof Proof.BandProof Proof.CholProof Proof.CholFactorProof.
 Import ListNotations.
@@ -233,6 +234,20 @@ Theorem C23_supernodes :
     ((r + k + 1 < length rs)%nat -> nth (r + k + 1) rs [] <> nth r rs []).
 Proof. exact super_rows_spec. Qed.
 Print Assumptions C23_supernodes.
+
+(* ---------------- mju_addToSparseMat (dst: nrow packed rows sharing one sorted index vector):
+   every packed row of the result is dst_row + scl * src_row on the sorted union pattern, and the
+   pattern is the same for every row (it does not depend on the values) *)
+Theorem C23_addToSparseMat_row :
+  forall (scl : R) (dind sind : list nat) (drow srow : list R),
+    StronglySorted lt dind -> StronglySorted lt sind -> length drow = length dind -> length srow = length sind ->
+    let m := combineSparse 1 scl (combine dind drow) (combine sind srow) in
+    inc m /\
+    (forall c : nat, lk c m = lk c (combine dind drow) + scl * lk c (combine sind srow)) /\
+    (forall c : nat, In c (cols m) <-> In c dind \/ In c sind) /\
+    cols m = cols (combineSparse 1 scl (combine dind (repeat 0 (length dind))) (combine sind (repeat 0 (length sind)))).
+Proof. exact addToSparseMat_row. Qed.
+Print Assumptions C23_addToSparseMat_row.
 
 (* ---------------- non-vacuity: concrete well-formed inputs with gaps, an empty row, unsorted
    columns; the models compute what the statements say *)
